@@ -229,3 +229,12 @@ Definition agrees := agrees_t TNone.
 Definition field_agrees := field_agrees_t TNone.
 Lemma agrees_struct fs m vs : agrees (Struct fs) (JObj m) (VStruct vs) = all2 (fun f w => field_agrees f m w) fs vs.
 Proof. reflexivity. Qed.
+
+(* ------------------------------------------------------------------ floats: JSON and YAML routes, on oracle values
+   j, y: math.Float64bits of the field after the JSON / the YAML route (None = rejected); o: the bits of
+   strconv.ParseFloat(token, bitsize).  Same content => same struct; and an accepted number is that float,
+   rounded once to the field's precision. *)
+Definition optN_eqb (a b : option N) : bool :=
+  match a, b with Some x, Some y => N.eqb x y | None, None => true | _, _ => false end.
+Definition json_yaml_float_agree (j y o : option N) : bool :=
+  optN_eqb j y && match j with Some _ => optN_eqb j o | None => true end.
